@@ -5,6 +5,7 @@ from .. import vlib
 TRUSTED = [
     "Lean 4.33 kernel; axioms per theorem listed under coverage.axioms (subset of propext, Classical.choice, Quot.sound)",
     "translate/cellvol.py (calculateCellVol.cpp: permutation/pqr tables, C, cprod, denom -> Gen/CellVol.lean), cross-checked bit-exactly by the correspondence (grid.vol / grid.cells)",
+    "translate/gridcopy.py (EclipseGrid.cpp: what resetACTNUM()/resetACTNUM(const int*) do with active_volume, what EclipseGrid(src, zcorn, actnum) does with m_input_zcorn, shape of activeVolume/getCellVolume/save -> Gen/GridCopy.lean), cross-checked by the correspondence (grid.seq: operation sequences on one object)",
     "harness/grid.cpp + lib/vlib.py differ; model driver (compiled Lean, IEEE double, same operation order as the C++)",
     "modelled, not verified: COORD/ZCORN generation is modelled in gather form (value of entry idx) against the scatter/push_back loops of the C++ — tied by comparing the complete arrays bit for bit; fixupZCORN is executed in the model but no theorem is stated about it",
     "observed only: independence of OMP_NUM_THREADS (1, 4, 16 compared bit for bit on the real code); Float ~ field (theorems are over a field of characteristic 0); float narrowing in EGRID files; formatted EGRID (property-mode round trip only)",
@@ -18,7 +19,7 @@ def run(ctx):
         "ACTNUM > 0 means active (as in resetACTNUM); no AQUNUM cells",
         "nz >= 1 for DX/DY/DZ/TOPS input (the C++ indexes layer nz-1)",
     ]
-    ctx.stage_translate(["cellvol", "eclio"])
+    ctx.stage_translate(["cellvol", "eclio", "gridcopy"])
     if not ctx.stage_build_opm():
         return ctx.finish(trusted_base=TRUSTED)
     ok, exe, out = vlib.build_harness("grid")
